@@ -67,6 +67,7 @@ Footprint == [
   c07        |-> {"upstreamhdr", "bearer", "htpasswd", "bypass", "revproxy", "store", "refresh"},   \* its bypassed requests are exempt by peer address
   c08        |-> {"emailrule", "htpasswd", "store", "errmode", "refresh"},
   c08file    |-> {"emailrule", "errmode", "refresh"},
+  startparams |-> {"authparams", "pkce", "errmode", "redirecturi"},   \* (authparams: prompt / acr values ARE login-URL parameters)
   lifetime   |-> {"store", "refresh", "cookiename"},
   sched      |-> {"store", "refresh", "cookiename"},
   c10        |-> {"store", "cookiename", "refresh"},
